@@ -159,6 +159,11 @@ theorem Rel.upd {P : Nat} {s s' : State} (k : Nat) (gf : FileDesc → FileDesc)
     have hne : u ≠ k := fun e => hk g (e ▸ hgu) hp
     exact ⟨g, by rw [hget, if_neg hne]; exact hgu, PView.refl g⟩
 
+/-- fault-freeness where it matters for what a FRESH transfer of queue `P` does: the objects WAITING for a slot of
+    queue `P` have buffer sources (objects of other queues, and objects already in transfer, may be faulty) -/
+def QueueFaultFree (s : State) (P : Nat) : Prop :=
+  ∀ u ∈ s.queue, ∀ g, getF s.objs u = some g → g.prio = P → g.faults = []
+
 /-- some waiting object of priority `P` is ready, and no waiting object of priority `P` carries a stale pacing
     timestamp -/
 structure WRP (P now : Nat) (s : State) : Prop where
